@@ -474,8 +474,14 @@ pub fn set<X: Layer, const L: usize>(
     alias: usize,
     setter: impl Fn(&X, Rc<Object>) -> Result<(), String>,
     bool_valued: bool,
+    pin0: i32,
 ) {
-    let raw: [u8; L] = sym::bytes::<L>();
+    let mut raw: [u8; L] = sym::bytes::<L>();
+    // pin0 >= 0: the first header byte is concrete (IPv4: version/IHL byte, so that the header
+    // length is a constant for the solver); all other bytes stay symbolic
+    if pin0 >= 0 {
+        raw[off] = pin0 as u8;
+    }
     let rc = Rc::new(raw.to_vec());
     let keep = rc.clone();
     let x = match X::parse(rc, off) {
